@@ -222,4 +222,106 @@ theorem step_hasStack (e : E) (c : Call) : (step e c).hasStack = (e.hasStack || 
 theorem metric_ne_nil (n : Str) : metric n ≠ [] := by
   simp [metric]
 
+/-! ### ordering of field names -/
+
+theorem strLe_total (a b : Str) : (strLe a b || strLe b a) = true := by
+  induction a generalizing b with
+  | nil => simp [strLe]
+  | cons x xs ih =>
+    cases b with
+    | nil => simp [strLe]
+    | cons y ys =>
+      unfold strLe
+      by_cases h1 : x.toNat < y.toNat
+      · simp [h1]
+      · by_cases h2 : y.toNat < x.toNat
+        · simp [h1, h2]
+        · simp [h1, h2]; simpa using ih ys
+
+theorem strLe_trans (a b c : Str) (h1 : strLe a b = true) (h2 : strLe b c = true) : strLe a c = true := by
+  induction a generalizing b c with
+  | nil => simp [strLe]
+  | cons x xs ih =>
+    cases b with
+    | nil => simp [strLe] at h1
+    | cons y ys =>
+      cases c with
+      | nil => simp [strLe] at h2
+      | cons z zs =>
+        unfold strLe at h1 h2 ⊢
+        by_cases a1 : x.toNat < y.toNat
+        · by_cases a2 : y.toNat < z.toNat
+          · have : x.toNat < z.toNat := by omega
+            simp [this]
+          · by_cases a3 : z.toNat < y.toNat
+            · simp [a2, a3] at h2
+            · have : x.toNat < z.toNat := by omega
+              simp [this]
+        · by_cases a4 : y.toNat < x.toNat
+          · simp [a1, a4] at h1
+          · simp only [a1, a4, if_false] at h1
+            by_cases a2 : y.toNat < z.toNat
+            · have : x.toNat < z.toNat := by omega
+              simp [this]
+            · by_cases a3 : z.toNat < y.toNat
+              · simp [a2, a3] at h2
+              · simp only [a2, a3, if_false] at h2
+                have e1 : ¬ x.toNat < z.toNat := by omega
+                have e2 : ¬ z.toNat < x.toNat := by omega
+                simp only [e1, e2, if_false]
+                exact ih ys zs h1 h2
+
+theorem insertField_perm (f : FieldDef) (l : List FieldDef) : (insertField f l).Perm (f :: l) := by
+  induction l with
+  | nil => exact List.Perm.refl _
+  | cons g gs ih =>
+    unfold insertField
+    split
+    · exact List.Perm.refl _
+    · exact (List.Perm.cons g ih).trans (List.Perm.swap f g gs)
+
+theorem sortFields_perm (l : List FieldDef) : (sortFields l).Perm l := by
+  induction l with
+  | nil => exact List.Perm.refl _
+  | cons f fs ih =>
+    show (insertField f (sortFields fs)).Perm (f :: fs)
+    exact (insertField_perm f _).trans (List.Perm.cons f ih)
+
+theorem insertField_sorted (f : FieldDef) (l : List FieldDef)
+    (h : l.Pairwise (fun a b => strLe a.name b.name = true)) :
+    (insertField f l).Pairwise (fun a b => strLe a.name b.name = true) := by
+  induction l with
+  | nil => simp [insertField]
+  | cons g gs ih =>
+    unfold insertField
+    rw [List.pairwise_cons] at h
+    split
+    · rename_i hfg
+      rw [List.pairwise_cons]
+      refine ⟨?_, List.pairwise_cons.mpr h⟩
+      intro a ha
+      cases ha with
+      | head => exact hfg
+      | tail _ ha' => exact strLe_trans _ _ _ hfg (h.1 a ha')
+    · rename_i hfg
+      have hgf : strLe g.name f.name = true := by
+        have := strLe_total f.name g.name
+        simp only [Bool.or_eq_true] at this
+        cases this with
+        | inl h' => exact absurd h' hfg
+        | inr h' => exact h'
+      rw [List.pairwise_cons]
+      refine ⟨?_, ih h.2⟩
+      intro a ha
+      have := (insertField_perm f gs).mem_iff.mp ha
+      cases this with
+      | head => exact hgf
+      | tail _ ha' => exact h.1 a ha'
+
+theorem sortFields_sorted (l : List FieldDef) :
+    (sortFields l).Pairwise (fun a b => strLe a.name b.name = true) := by
+  induction l with
+  | nil => exact List.Pairwise.nil
+  | cons f fs ih => exact insertField_sorted f _ ih
+
 end GErrClone
